@@ -148,7 +148,18 @@ SkPrograms == <<
               DefM(80, TInt, Call(Call(V(2205), <<Bo(FALSE)>>), <<Call(V(2203), <<V(79), I(2)>>), I(1)>>)),
               DefM(81, TInt, Call(Fn(<<P(82, TInt), P(83, TInt)>>, TInt, <<Ex(Bin("+", V(82), V(83)))>>), <<V(78), V(79)>>)),
               DefM(84, TInt, Call(If2(Bin(">", V(78), V(79)), <<Ex(V(2203))>>, <<Ex(V(2204))>>), <<I(1), I(2)>>)),
-              PrintE(V(71)), PrintE(Fld(V(73), "x")), PrintE(Bin("+", Bin("+", V(78), V(79)), Bin("+", V(80), Bin("+", V(81), V(84)))))>>)>>
+              PrintE(V(71)), PrintE(Fld(V(73), "x")), PrintE(Bin("+", Bin("+", V(78), V(79)), Bin("+", V(80), Bin("+", V(81), V(84)))))>>)>>,
+  \* 19: LOCAL definitions whose value is a function literal (plain, recursive, capturing), a blob literal, an if and a case
+  \*     expression - the positions where redundant parentheses must not change how the definition is resolved
+  <<EnumD("Col", <<VD1("R", TInt), VD0("G")>>),
+    SkStart(<<DefC(91, TNone, Fn(<<P(92, TInt)>>, TInt, <<Ex(Bin("+", V(92), I(1)))>>)),
+              DefC(93, TNone, Fn(<<P(94, TInt)>>, TInt, <<Ex(If1(Bin(">", V(94), I(3)), <<Ret(V(94))>>)), Ex(Call(V(93), <<Bin("+", V(94), I(1))>>))>>)),
+              DefM(95, TInt, Call(V(91), <<I(1)>>)),
+              DefC(96, TNone, Fn(<<>>, TInt, <<Asg("+=", V(95), I(1)), Ex(V(95))>>)),
+              DefC(97, TName("O"), BlobL("O", <<FI("n", V(95)), FI("add", Fn(<<P(98, TInt)>>, TInt, <<Ex(Bin("+", Fld(Self, "n"), V(98)))>>))>>)),
+              DefC(99, TInt, If2(Bin(">", V(95), I(1)), <<Ex(Call(V(93), <<I(1)>>))>>, <<Ex(Call(V(96), <<>>))>>)),
+              DefC(100, TInt, CaseT(Var1("Col", "R", V(99)), <<CArmB("R", 101, <<Ex(Bin("*", V(101), I(2)))>>), CArm("G", <<Ex(I(0))>>)>>)),
+              PrintE(Bin("+", Call(Fld(V(97), "add"), <<V(100)>>), Call(V(96), <<>>)))>>)>>
 >>
 
 (* ---------------------------------------------------------------- skeleton expressions of the token-level model *)
